@@ -9,6 +9,8 @@
     mergefull <node> <key>/<payload>;…          -> <dump>     MergeRemoteState(Marshal(FullState))
     mergefull <node> raw <hex>                   -> <dump>
     exchange <from> <to>                         -> <dump of to>   to.MergeRemoteState(from.LocalState())
+    pushpull <from> <to>                         -> <dump of to>   the periodic exchange: to.MergeRemoteState(from.LocalState(join=false)) (skipped when empty, as memberlist does)
+    lose                                         -> lost=<n>       everything queued for gossip at A is transmitted and lost
     bcast <key> <payload> <pad>                  -> <gossip|oversize|dropped> size=<n> dropped=<n> sends=<n>
     hold <0|1>                                   -> ok        reliable sends block / are released
     deliver                                      -> gossiped=<n> oversize=<n> sends=<total> <dump of B>   release sends; A.GetBroadcasts and the reliable sends to peer 0 → B.NotifyMsg
@@ -56,6 +58,7 @@ structure St where
   pendingOversize : List Part := []  -- reliable sends to peer 0 (= node B) started, applied at `deliver`
   sends : Nat := 0
   implOversize : Nat := 0            -- broadcasts the implementation put on the oversize path
+  lostSome : Bool := false           -- a queued gossip update was lost (`lose`)
 
 def St.get (σ : St) (n : String) : States := if n = "0" then σ.a else σ.b
 def St.set (σ : St) (n : String) (x : States) : St := if n = "0" then { σ with a := x } else { σ with b := x }
@@ -150,7 +153,9 @@ def step (σ : St) (op obs : List String) : St × List Msg :=
       ++ (if ps.any (fun p => (lookup before p.key).isNone) then [.tag "mergefull:unknown-key"] else [])
       ++ (if ps.length ≥ 2 then [.tag "mergefull:multi"] else [])
     ((σ.set n after).setImpl n cur, expectEq "mergefull" (dump after) dmp ++ pf ++ tags)
-  | ["exchange", fr, to], [dmp] =>
+  | [xop, fr, to], [dmp] =>
+    if xop ≠ "exchange" ∧ xop ≠ "pushpull" then (σ, [.diff "parse" "?" (" ".intercalate op)]) else
+    let periodic := xop = "pushpull"
     let A := σ.get fr
     let B := σ.get to
     let after := mergeRemoteState B (localState A)
@@ -162,10 +167,18 @@ def step (σ : St) (op obs : List String) : St × List Msg :=
       ++ implFrom.foldl (fun acc kv =>
           match lookup prevTo kv.1, lookup cur kv.1 with
           | some _, some s => if domKV s kv.2 then acc else
-              acc ++ [Msg.propfail "full_state_superset" "missing-after-exchange" s!"key={kv.1} sender={showKV kv.2} receiver={showKV s}"]
+              acc ++ [Msg.propfail "full_state_superset" (if periodic then "missing-after-periodic-exchange" else "missing-after-exchange")
+                        s!"key={kv.1} sender={showKV kv.2} receiver={showKV s}"]
           | _, _ => acc) []
-    ((σ.set to after).setImpl to cur, expectEq "exchange" (dump after) dmp ++ pf
-        ++ [if A.any (fun kv => (lookup B kv.1).isNone) then .tag "exchange:key-unknown-to-receiver" else .tag "exchange"])
+    -- did this exchange repair something the receiver had missed?
+    let repaired := implFrom.any fun kv => match lookup prevTo kv.1 with | some s => !domKV s kv.2 | none => false
+    ((σ.set to after).setImpl to cur, expectEq xop (dump after) dmp ++ pf
+        ++ [if A.any (fun kv => (lookup B kv.1).isNone) then .tag s!"{xop}:key-unknown-to-receiver" else .tag xop]
+        ++ (if periodic ∧ repaired then [.tag "pushpull:repaired-a-missed-update"] else [])
+        ++ (if periodic ∧ repaired ∧ σ.lostSome then [.tag "pushpull:repaired-a-lost-broadcast"] else []))
+  | ["lose"], [n] =>
+    ({ σ with pendingGossip := [], lostSome := σ.lostSome || !σ.pendingGossip.isEmpty },
+      expectEq "lose.lost" (toString σ.pendingGossip.length) (toString (kvNat [n] "lost" 0)) ++ [.tag "lose"])
   | ["bcast", key, payload, _pad], [path, size, dropped, sends] =>
     let sz := kvNat [size] "size" 0
     let c0 := { σ.chan with key := key }
